@@ -1060,6 +1060,29 @@ fn run_c19_virtual(input: RunInput) -> ScenFuture {
             }
             w.probe("per-peer-independence-compared");
         }
+        // (5) a crowd: thousands of peers the limiter has never seen send one request each within
+        // one period. Quotas are per peer however many peers there are: every one of these first
+        // requests is within its sender's quota and is admitted at once, in either mode
+        if !w.violated() && w.flag("crowd_of_peers", 0.08) {
+            let n_crowd = w.param("crowd", 4_100, 9_000) as u32;
+            let mut svc = services[0].clone();
+            let mut bad: Option<(u32, String)> = None;
+            let t0 = w.now_ns();
+            for k in 0..n_crowd {
+                let mut id = [0xC7u8; 32];
+                id[..4].copy_from_slice(&k.to_be_bytes());
+                let req = Request::new(Bytes::new()).with_extension(PeerId(id)).with_header("id", (5_000_000 + k as u64).to_string()).with_header("instant", "1");
+                match tokio::time::timeout(Duration::from_nanos(t_ns / 4), svc.ready().await.unwrap().call(req)).await {
+                    Ok(Ok(_)) => {}
+                    Ok(Err(s)) => { bad = Some((k, format!("refused with {:?}", s.status()))); break; }
+                    Err(_) => { bad = Some((k, "made to wait".into())); break; }
+                }
+            }
+            if let Some((k, what)) = bad {
+                w.violate("quota-depends-on-other-peers", format!("{key} crowd"), format!("the first request of previously unseen peer number {k} (of a crowd of {n_crowd} peers sending one request each within {} us) was {what}", (w.now_ns() - t0) / 1000));
+            }
+            w.probe("crowd-phase");
+        }
         for t in tasks {
             t.abort();
         }
